@@ -61,6 +61,16 @@ class ExtractSub(ExtractMe):
     pass
 
 
+class MixedErr(AppError, KeyError):
+    """Two unrelated bases: MRO is MixedErr, AppError, KeyError, LookupError, Exception -- the nearest
+    registered class is decided by the MRO, not by the order in which extractors were registered."""
+
+
+class MixedErr2(ValueError, ExtractMe):
+    def __init__(self, text):
+        ExtractMe.__init__(self, text)
+
+
 class CollideErr(Exception):
     """Raised by `raise` ops only; its extractor returns keys that collide with the fields eliot
     itself puts on a failed end message (exception, reason, action_status)."""
@@ -96,6 +106,8 @@ EXC_CLASSES = {
     "StrRaises": StrRaises,
     "ZeroDivisionError": ZeroDivisionError,
     "CollideErr": CollideErr,
+    "MixedErr": MixedErr,
+    "MixedErr2": MixedErr2,
 }
 
 
@@ -369,6 +381,12 @@ class Interp(object):
             yield from self.x_act(op, env)
         elif k == "raise":
             raise make_exc(op["cls"], op.get("text", "boom"))
+        elif k == "handler":
+            self.rc.probe("ops_inside_an_exception_handler")
+            try:
+                raise make_exc(op["cls"], "being handled while the body runs")
+            except BaseException:  # noqa
+                yield from self.x_body(op["body"], env)
         elif k == "tb":
             self.x_tb(op, env)
         elif k == "succ":
